@@ -165,8 +165,12 @@ def stream_a(ctx, lines, pending):
             if not ok:
                 ctx.oracle_fail(case, {'what': 'corrupting non-positively weighted pairs changed %s' % key,
                                        'nclip': k,
-                                       'original': np.asarray(a[1][key], dtype=float).ravel()[:8].tolist(),
-                                       'corrupted': np.asarray(b[1][key], dtype=float).ravel()[:8].tolist()})
+                                       'original': (np.asarray(a[1][key], dtype=float).ravel()[:8].tolist()
+                                                    if key in a[1] else [np.asarray(a[1]['fitmask']).astype(int).tolist(),
+                                                                         a[1].get('eff_nclip')]),
+                                       'corrupted': (np.asarray(b[1][key], dtype=float).ravel()[:8].tolist()
+                                                     if key in b[1] else [np.asarray(b[1]['fitmask']).astype(int).tolist(),
+                                                                          b[1].get('eff_nclip')])})
                 break
             ctx.branch('A:bit-identical' if bit else 'A:equal-1e-12')
             if np.any(np.asarray(b[1]['fitmask'], dtype=bool) & ~wm):
